@@ -72,7 +72,15 @@ def pTemplate : P Template := do
   let nb ← num
   let blocks ← rep nb (do let n ← num; let b ← pItems; pure (n, b))
   -- the template is named `t<i>.<ext>`: its initial mode is what the default callback says
-  pure { layout, blocks, ae := modeOfName ("t." ++ ext) }
+  -- `ext!s` / `ext!r` / `ext!c`: the name exists but the lookup fails (does not compile / the
+  -- loader refuses / the loader returns some other error)
+  let (ext, loadErr) : String × Option LoadErr :=
+    match ext.splitOn "!" with
+    | [e, "s"] => (e, some .syntax)
+    | [e, "r"] => (e, some .refused)
+    | [e, "c"] => (e, some .custom)
+    | _ => (ext, none)
+  pure { layout, blocks, ae := modeOfName ("t." ++ ext), loadErr }
 
 /-- the configuration suffix of the family token: `fam~LSPUB` — loader-backed?, custom syntax?,
     path-join callback?, undefined behaviour (0 lenient, 1 chainable, 2 semi-strict, 3 strict),
@@ -110,6 +118,8 @@ def kindName : Kind → String
   | .recursion => "FUEL-EXHAUSTED"
   | .panic => "PANIC"
   | .unsupported => "UNSUPPORTED"
+  | .syntaxError t => s!"SyntaxError@t{t}"
+  | .badSerialization => "BadSerialization"
 
 def showErr (e : Err) : String := ">".intercalate (e.map kindName)
 
